@@ -25,6 +25,7 @@ import (
 	"github.com/ipfs/ipfs-cluster/datastore/inmem"
 
 	host "github.com/libp2p/go-libp2p-core/host"
+	"github.com/libp2p/go-libp2p-core/network"
 	peer "github.com/libp2p/go-libp2p-core/peer"
 	rpc "github.com/libp2p/go-libp2p-gorpc"
 	dual "github.com/libp2p/go-libp2p-kad-dht/dual"
@@ -54,6 +55,12 @@ type psScript struct {
 	// adds one later. Connectivity is not part of the model (a delivery may or
 	// may not happen), so links are not written to the trace.
 	Links [][]string `json:"links,omitempty"`
+	// Block lists pairs of nodes that can never be connected (connection gater
+	// on both sides): delivery between them is necessarily relayed.
+	Block [][]string `json:"block,omitempty"`
+	// Quiet lists replicas whose rebroadcast_interval is one hour: within a
+	// script they broadcast their heads only when they publish themselves.
+	Quiet []string `json:"quiet,omitempty"`
 }
 
 type upd struct {
@@ -72,6 +79,7 @@ type replica struct {
 	name  string
 	h    host.Host
 	dht  *dual.DHT
+	gate *blockGater
 	ps   *pubsub.PubSub
 	cons *crdt.Consensus
 }
@@ -116,13 +124,18 @@ func newPsWorld(sc *psScript) (w *psWorld, err error) {
 	}
 	sort.Strings(w.order)
 	for _, n := range w.order {
-		h, ps, idht, err := fullHost()
+		g := &blockGater{}
+		h, ps, idht, err := gatedHost(g)
 		if err != nil {
 			return w, err
 		}
-		r := &replica{name: n, h: h, dht: idht, ps: ps}
+		r := &replica{name: n, h: h, dht: idht, ps: ps, gate: g}
 		w.reps[n] = r
 		w.names.SetPeer(n, h.ID())
+	}
+	for _, b := range sc.Block {
+		w.reps[b[0]].gate.block(w.reps[b[1]].h.ID())
+		w.reps[b[1]].gate.block(w.reps[b[0]].h.ID())
 	}
 	for _, n := range w.order {
 		r := w.reps[n]
@@ -161,6 +174,9 @@ func newPsWorld(sc *psScript) (w *psWorld, err error) {
 		cfg, err := crdtConfig(tp, func(m map[string]interface{}) {
 			m["cluster_name"] = clusterName
 			m["rebroadcast_interval"] = "600ms"
+			if isIn(sc.Quiet, n) {
+				m["rebroadcast_interval"] = "1h"
+			}
 		})
 		if err != nil {
 			return w, err
@@ -324,7 +340,11 @@ func runPsScript(sc *psScript, out *hx.Tracer, res *hx.Result) error {
 		}
 		tj[n] = map[string]interface{}{"all": t.All, "set": set}
 	}
-	tr.Emit("init", "script", sc.ID, "trust", tj)
+	quiet := sc.Quiet
+	if quiet == nil {
+		quiet = []string{}
+	}
+	tr.Emit("init", "script", sc.ID, "trust", tj, "quiet", quiet)
 	observe := func() error {
 		snap, err := w.settle(1300*time.Millisecond, 1300*time.Millisecond, 20*time.Second)
 		if err != nil {
@@ -373,6 +393,13 @@ func runPsScript(sc *psScript, out *hx.Tracer, res *hx.Result) error {
 		}
 		if err := observe(); err != nil {
 			return err
+		}
+	}
+	// the blocked pairs must really have stayed apart, and only the scripted links may exist
+	for _, b := range sc.Block {
+		x, y := w.reps[b[0]], w.reps[b[1]]
+		if x.h.Network().Connectedness(y.h.ID()) == network.Connected || y.h.Network().Connectedness(x.h.ID()) == network.Connected {
+			return fmt.Errorf("blocked pair %s-%s is connected", b[0], b[1])
 		}
 	}
 	tr.flush(out)
